@@ -54,6 +54,10 @@ pub(crate) mod verif_c01 {
         HookStruct(usize, usize),
         KeyHook(u8),
         KeyHookStruct(usize, usize),
+        /// E::unknown_field(name, fields): name length, first two bytes, number of declared fields
+        UnknownField(usize, u8, u8, usize),
+        /// a wrapper's wrap_visitor ran (C05 wrapping deserializer frames)
+        Wrap,
     }
     pub const ANY: u8 = 0;
     pub const BOOL: u8 = 1;
@@ -135,7 +139,9 @@ pub(crate) mod verif_c01 {
         fn invalid_value(_: de::Unexpected, _: &dyn de::Expected) -> Self {
             E
         }
-        fn unknown_field(_: &str, _: &'static [&'static str]) -> Self {
+        fn unknown_field(name: &str, fields: &'static [&'static str]) -> Self {
+            let b = name.as_bytes();
+            log(Ev::UnknownField(b.len(), first(b), if b.len() > 1 { b[1] } else { 0 }, fields.len()));
             E
         }
     }
